@@ -639,7 +639,7 @@ impl BuiltInFunction {
                     l.reify(&heap.borrow()).as_list()?.len() as f64
                 )),
                 Value::String(s) => Ok(Value::Number(
-                    s.reify(&heap.borrow()).as_string()?.len() as f64
+                    s.reify(&heap.borrow()).as_string()?.chars().count() as f64,
                 )),
                 _ => Err(RuntimeError::from("argument must be a list or string")),
             },
@@ -655,9 +655,10 @@ impl BuiltInFunction {
                     let val = {
                         p.reify(&heap.borrow())
                             .as_string()?
-                            .get(0..1)
-                            .unwrap_or("")
-                            .to_string()
+                            .chars()
+                            .next()
+                            .map(|c| c.to_string())
+                            .unwrap_or_default()
                     };
 
                     Ok(heap.borrow_mut().insert_string(val))
@@ -679,11 +680,10 @@ impl BuiltInFunction {
                 }
                 Value::String(s) => {
                     let val = {
-                        s.reify(&heap.borrow())
-                            .as_string()?
-                            .get(1..)
-                            .unwrap_or("")
-                            .to_string()
+                        let borrowed_heap = heap.borrow();
+                        let mut chars = s.reify(&borrowed_heap).as_string()?.chars();
+                        chars.next();
+                        chars.as_str().to_string()
                     };
 
                     Ok(heap.borrow_mut().insert_string(val))
@@ -713,9 +713,14 @@ impl BuiltInFunction {
                             args[0].as_string(borrowed_heap)?.to_string()
                         };
 
-                        s.get(start..end)
-                            .map_or(Err(RuntimeError::from("index out of bounds")), |s| {
-                                Ok(heap.borrow_mut().insert_string(s.to_string()))
+                        let chars: Vec<char> = s.chars().collect();
+
+                        chars
+                            .get(start..end)
+                            .map_or(Err(RuntimeError::from("index out of bounds")), |cs| {
+                                Ok(heap
+                                    .borrow_mut()
+                                    .insert_string(cs.iter().collect::<String>()))
                             })
                     }
                     _ => Err(RuntimeError::from("argument must be a list or string")),
